@@ -5,6 +5,7 @@ import (
 	"errors"
 	"fmt"
 	"io"
+	"strings"
 	"time"
 
 	"verif/driver"
@@ -124,12 +125,17 @@ func (w *W) c05(groups [][]*driver.Bound) {
 						data = append(data, guard...)
 					}
 					// one execution under a schedule
+					byteReader := false // also offer io.ByteReader (as bytes.Reader, bufio.Reader do)
 					runOne := func(choose func(opts []int) int) (string, string) {
 						cr := driver.NewChunkReader(data)
 						cr.Choose = choose
+						var src io.Reader = cr
+						if byteReader {
+							src = driver.ByteChunkReader{ChunkReader: cr}
+						}
 						for i, it := range st {
 							out := it.b.New()
-							o := driver.Guard(func() error { return out.DecodeBebop(cr) })
+							o := driver.Guard(func() error { return out.DecodeBebop(src) })
 							if o.Panicked || o.Err != nil {
 								return "decode-fails|" + failKind(o), fmt.Sprintf("record %d of the stream: DecodeBebop failed: %s", i, outcomeStr(o))
 							}
@@ -239,7 +245,9 @@ func (w *W) c05(groups [][]*driver.Bound) {
 					}
 					w.distinctKey(string(data))
 					// uniform schedules
-					for name, pick := range map[string]int{"all-one-byte": driver.OptOne, "all-half": driver.OptHalf, "eof-with-data": driver.OptWithEOF, "zero-reads": driver.OptZero} {
+					for name, pick := range map[string]int{"all-one-byte": driver.OptOne, "all-half": driver.OptHalf, "eof-with-data": driver.OptWithEOF, "zero-reads": driver.OptZero,
+						"default+ReadByte": driver.OptFull, "all-one-byte+ReadByte": driver.OptOne, "eof-with-data+ReadByte": driver.OptWithEOF} {
+						byteReader = strings.HasSuffix(name, "+ReadByte")
 						kind, msg := runOne(func(opts []int) int {
 							for i, o := range opts {
 								if o == pick {
@@ -248,6 +256,7 @@ func (w *W) c05(groups [][]*driver.Bound) {
 							}
 							return 0
 						})
+						byteReader = false
 						w.res.Evaluations++
 						if kind == "harness" {
 							w.res.HarnessErr = msg
@@ -279,13 +288,17 @@ func (w *W) c05(groups [][]*driver.Bound) {
 					data := append(append(append([]byte{}, enc1...), enc2...), guard...)
 					ends := []int{len(enc1), len(enc1) + len(enc2)}
 					wants := []string{refcodec.NormalRec(rv), refcodec.NormalRec(vals[0])}
-					for name, pick := range map[string]int{"default": driver.OptFull, "all-one-byte": driver.OptOne, "all-half": driver.OptHalf, "zero-reads": driver.OptZero} {
+					for name, pick := range map[string]int{"default": driver.OptFull, "all-one-byte": driver.OptOne, "all-half": driver.OptHalf, "zero-reads": driver.OptZero, "default+ReadByte": driver.OptFull} {
 						cr := driver.NewChunkReader(data)
 						cr.Choose = pickOption(pick)
+						var src io.Reader = cr
+						if strings.HasSuffix(name, "+ReadByte") {
+							src = driver.ByteChunkReader{ChunkReader: cr}
+						}
 						kind, msg := "", ""
 						for i := 0; i < 2 && kind == ""; i++ {
 							out := b.New()
-							o := driver.Guard(func() error { return out.DecodeBebop(cr) })
+							o := driver.Guard(func() error { return out.DecodeBebop(src) })
 							switch {
 							case o.Panicked || o.Err != nil:
 								kind, msg = "decode-fails|"+failKind(o), fmt.Sprintf("record %d: %s", i, outcomeStr(o))
@@ -340,6 +353,10 @@ func (w *W) c06(groups [][]*driver.Bound) {
 				continue
 			}
 			vals := refcodec.RecValues(b.Case.Rec, 0, 0)
+			if refcodec.IsBig(b.Case.Rec) {
+				// payloads far above the allocation budget, truncated near the header only
+				vals = append(vals, refcodec.HugeValues(b.Case.Rec)...)
+			}
 			for vi, rv := range vals {
 				if w.slow(b) {
 					break
@@ -355,6 +372,11 @@ func (w *W) c06(groups [][]*driver.Bound) {
 				}
 				roles := map[string]bool{}
 				for k := 0; k < len(enc); k++ {
+					if len(enc) > refcodec.HugeSize && k >= 96 && k < len(enc)-8 {
+						// the huge values: every cut point in the first 96 bytes (all headers and length prefixes) and the last 8
+						w.res.Extra["cut_points_skipped_in_huge_encodings"]++
+						continue
+					}
 					if len(enc) > 6000 && k >= 64 && k < len(enc)-64 && k%97 != 0 {
 						// encodings longer than 6000 bytes (the dedicated big values): first/last 64 cut points and every 97th
 						w.res.Extra["cut_points_skipped_in_long_encodings"]++
@@ -381,7 +403,7 @@ func (w *W) c06(groups [][]*driver.Bound) {
 					w.res.Evaluations++
 					w.judgeTruncated("C06", "UnmarshalBebop", b, o, k, role, ci, func() { b.New().UnmarshalBebop(pre[:k:k]) })
 					// stream path, two EOF styles
-					for _, style := range []int{0, 1} {
+					for _, style := range []int{0, 1, 2} {
 						cr := driver.NewChunkReader(enc[:k])
 						if style == 1 {
 							cr.Choose = func(opts []int) int {
@@ -393,12 +415,19 @@ func (w *W) c06(groups [][]*driver.Bound) {
 								return 0
 							}
 						}
+						var src io.Reader = cr
+						if style == 2 {
+							src = driver.ByteChunkReader{ChunkReader: cr}
+						}
 						out := b.New()
-						o := driver.Guard(func() error { return out.DecodeBebop(cr) })
+						o := driver.Guard(func() error { return out.DecodeBebop(src) })
 						w.res.Evaluations++
 						name := "DecodeBebop"
 						if style == 1 {
 							name = "DecodeBebop(n,EOF)"
+						}
+						if style == 2 {
+							name = "DecodeBebop(io.ByteReader)"
 						}
 						style := style
 						w.judgeTruncated("C06", name, b, o, k, role, ci, func() {
@@ -413,7 +442,11 @@ func (w *W) c06(groups [][]*driver.Bound) {
 									return 0
 								}
 							}
-							b.New().DecodeBebop(cr)
+							if style == 2 {
+								b.New().DecodeBebop(driver.ByteChunkReader{ChunkReader: cr})
+							} else {
+								b.New().DecodeBebop(cr)
+							}
 						})
 					}
 				}
@@ -787,9 +820,15 @@ func (w *W) c08(groups [][]*driver.Bound) {
 						}
 					}
 				}
-				for _, f := range faults {
+				for fi := 0; fi < 2*len(faults); fi++ {
+					f := faults[fi/2]
 					fw := &driver.FaultWriter{Err: errIO, FailAt: f.at, Sticky: f.sticky}
-					o := driver.Guard(func() error { return rec.EncodeBebop(fw) })
+					var sink io.Writer = fw
+					if fi%2 == 1 {
+						// the same fault through a writer that also offers WriteByte / WriteString
+						sink = driver.RichFaultWriter{FaultWriter: fw}
+					}
+					o := driver.Guard(func() error { return rec.EncodeBebop(sink) })
 					w.res.Evaluations++
 					delivered := false
 					first := 0
@@ -806,6 +845,7 @@ func (w *W) c08(groups [][]*driver.Bound) {
 						m["write_calls_fault_free"] = W
 						m["fault_at_write_call"] = f.at
 						m["sticky"] = f.sticky
+						m["writer_offers_WriteByte_WriteString"] = fi%2 == 1
 						return m
 					}
 					w.outcome("enc:" + failKind(o))
@@ -837,7 +877,7 @@ func (w *W) c08(groups [][]*driver.Bound) {
 							if long && chunk == driver.OptOne {
 								continue
 							}
-							for _, e := range []error{errIO, io.EOF} {
+							for ei, e := range []error{errIO, io.EOF, errIO} {
 								cr := driver.NewChunkReader(want)
 								cr.FailAt, cr.FailErr, cr.FailStyle = k, e, style
 								chunk := chunk
@@ -849,8 +889,13 @@ func (w *W) c08(groups [][]*driver.Bound) {
 									}
 									return 0
 								}
+								var src io.Reader = cr
+								if ei == 2 {
+									// the same fault through a reader that also offers ReadByte (bytes.Reader, bufio.Reader ... do)
+									src = driver.ByteChunkReader{ChunkReader: cr}
+								}
 								out := b.New()
-								o := driver.Guard(func() error { return out.DecodeBebop(cr) })
+								o := driver.Guard(func() error { return out.DecodeBebop(src) })
 								w.res.Evaluations++
 								w.outcome("dec:" + failKind(o))
 								ci := func() map[string]any {
@@ -859,6 +904,7 @@ func (w *W) c08(groups [][]*driver.Bound) {
 									m["fail_at_byte"] = k
 									m["style"] = []string{"(0,err)", "(n,err)"}[style]
 									m["chunking"] = []string{"full", "one-byte"}[chunk]
+									m["reader_offers_ReadByte"] = ei == 2
 									return m
 								}
 								if cr.Faulted {
